@@ -239,3 +239,44 @@ func vh_take_snapshot() {
 	vAssert(post.applied == pre.applied && post.commit == pre.commit && post.term == pre.term, "C11.snapshot.frame")
 	vReach("snapshot.end")
 }
+
+// vh_run_snapshots: the snapshot goroutine serving one user snapshot request,
+// together with the real FSM goroutine and follower main loop: the future is
+// always answered; on success it can open the snapshot that was taken.
+func vh_run_snapshots() {
+	w := 2
+	r, env := vNewRaft("a", vRaftOpts{n: 1, w: w, shaped: true})
+	s := env.logs
+	vShapeCommit(r, "a", w)
+	vAssume(vInvBasic(r, env))
+	vAssume(vInvLog(r, env, w))
+	r.state = Follower
+	fsm := &mSnapFSM{snapFail: vChoose("snapFail", 0, 1) == 1, persistFail: vChoose("persistFail", 0, 1) == 1}
+	r.fsm = fsm
+	applied := r.lastApplied
+	if s.has(applied) {
+		r.fsmMutateCh <- []*commitTuple{{&Log{Index: applied, Term: s.term.Get(applied), Type: LogCommand}, nil}}
+	}
+	fut := &userSnapshotFuture{}
+	fut.init()
+	vGo(r.runFSM)
+	vGo(r.runFollower)
+	vGo(func() { r.userSnapshotCh <- fut })
+	vTimerMode(0)
+	vAssertNoPanic("C17.usersnapshot.no-panic")
+	vRunUntilBlocked(r.runSnapshots)
+	done, err := vFutureErr(&fut.deferError)
+	vAssert(done, "C17.usersnapshot.future-answered")
+	if done && err == nil {
+		vCover("usersnapshot.ok")
+		vAssert(fut.opener != nil && len(env.snaps.metas) == 1, "C11.usersnapshot.success-has-a-durable-snapshot")
+		if fut.opener != nil {
+			m, _, oerr := fut.opener()
+			vAssert(oerr == nil && m.Index == applied, "C11.usersnapshot.opens-the-snapshot-taken")
+		}
+	} else {
+		vCover("usersnapshot.failed")
+		vAssert(r.lastSnapshotIndex <= applied, "C11.usersnapshot.failure-frame")
+	}
+	vReach("usersnapshot.end")
+}
